@@ -42,6 +42,9 @@ def plans(world, info, seed, tier):
             sim["faults"] = [{"at": rng.randrange(0, 2), "kind": rng.choice(["interrupt", "time_limit_with_incumbent", "time_limit_no_incumbent"])}]
             sim["only_aux_faults"] = rng.random() < 0.7
         specs.append({"world": world, "sim": sim})
+    w3 = mr.greedy_variant(world, rng)
+    if w3 is not None:
+        specs.append({"world": w3, "sim": {"latency": "instant", "reply": rng.choice(["canonical", "alt"]), "reply_seed": rng.randrange(1 << 30), "faults": []}})
     return specs
 
 
